@@ -11,6 +11,10 @@ CHECKS = {
             "Runtime monitor: the real TransmitLimitedQueue is driven by PRNG and scripted operation sequences in lock-step with an executable reference queue (conservation, exactly-once Finished, greedy hand-out order, byte budget, one entry per name, no panic); thorough adds 8-goroutine producer/consumer histories checked for conservation and, per broadcast, linearizability with porcupine. Exploration is the right level: the property quantifies over unbounded operation sequences, so the claim is 'held on K sequences covering these op-bigram x queue-shape cells'.",
             "Trusts the 80-line reference model (written from the statement; conventions adopted from the code are listed in the evidence rule), Go runtime, porcupine v1.3.0.",
             "model-based lock-step monitor + porcupine history check", "DESIGN.md §3 C10"),
+    "C17": ("E2-model-lockstep+E4-race+E1-simnet", "exploration",
+            "Runtime monitor in three layers: (1) keyring API sequences (valid/invalid/duplicate/absent/primary keys, constructor variants) in lock-step with a reference keyring, with an aliasing monitor over every list GetKeys ever returned; (2) concurrent writers/readers under the Go race detector, the recorded call/return history checked for linearizability with porcupine, returned lists watched for tearing; (3) real 3-5 node encrypted clusters in virtual time performing install/use/remove node by node in PRNG order with an all-pairs packet+stream traffic probe after every single step, plus a negative control (out-of-order rotation must break a pair, else the probe is blind -> inconclusive).",
+            "Trusts the reference keyring model, porcupine v1.3.0, the race detector, testing/synctest's fake clock and the in-memory transport.",
+            "model lock-step + race detector + porcupine linearizability + rotation traffic probe", "DESIGN.md §3 C17"),
 }
 
 NOT_YET = "check not built yet in this round (design in DESIGN.md §3); not claimed until its monitor runs clean on the unchanged tree"
@@ -47,7 +51,7 @@ def main():
         },
         "engines": [
             {"name": "E1-simnet", "path": "harness/simnet.go", "serves_properties": [], "kind_free_text": "real Memberlist instances on an in-memory transport inside a testing/synctest bubble (virtual time), with wire tap, fault scripts and fake peers"},
-            {"name": "E2-model-lockstep", "path": "harness/", "serves_properties": ["C10"], "kind_free_text": "PRNG operation sequences against one object with an executable reference model evaluated in lock-step"},
+            {"name": "E2-model-lockstep", "path": "harness/", "serves_properties": ["C10", "C17"], "kind_free_text": "PRNG operation sequences against one object with an executable reference model evaluated in lock-step"},
         ],
         "checks": checks,
         "not_applicable": [{"property_id": p, "reason": NOT_YET} for p in ALL if p not in CHECKS],
